@@ -97,7 +97,10 @@ class Ctx:
         cmd += list(extra) + [module + ".tla"]
         env = dict(os.environ)
         # deep recursive operators (folds over long event lists) need more than the default thread stack
-        env["JAVA_TOOL_OPTIONS"] = "-Xss512m" + (" -Dtlc2.tool.queue.IStateQueue=StateDeque" if dfs else "")
+        # (and the JVM's temporary files go to the scratch directory, which is removed, not to /tmp)
+        jtmp = os.path.join(self.scratch, "jtmp")
+        os.makedirs(jtmp, exist_ok=True)
+        env["JAVA_TOOL_OPTIONS"] = "-Xss512m -Djava.io.tmpdir=" + jtmp + (" -Dtlc2.tool.queue.IStateQueue=StateDeque" if dfs else "")
         t = time.time()
         r = subprocess.run(cmd, cwd=self.specdir, env=env, capture_output=True, text=True)
         out = r.stdout + r.stderr
